@@ -365,7 +365,7 @@ pub struct WorkerArgs {
     pub dir: PathBuf,
 }
 
-fn set_limits() {
+pub fn set_limits() {
     unsafe {
         let gib: u64 = std::env::var("VERIF_WORKER_MEM_GIB")
             .ok()
@@ -570,12 +570,14 @@ fn replay_in_child(id: &str, path: &Path) -> (Option<String>, String) {
         .arg(id)
         .arg(path)
         .arg("--json")
+        .env("VERIF_LIMITS", "1")
         .stdin(Stdio::null())
+        .stderr(Stdio::null())
         .output();
     match out {
         Ok(o) => {
             let so = String::from_utf8_lossy(&o.stdout).to_string();
-            if let Some(line) = so.lines().rev().find(|l| l.starts_with("{\"replay\"")) {
+            if let Some(line) = so.lines().rev().find(|l| l.contains("\"replay\":true")) {
                 if let Ok(v) = serde_json::from_str::<Value>(line) {
                     let sig = v["sig"].as_str().map(|s| s.to_string());
                     return (sig, v["outcome"].as_str().unwrap_or("?").to_string());
@@ -681,6 +683,8 @@ pub fn parent_main(check: &'static dyn Check, tier: Tier, seed: u64) -> i32 {
             let mut restarts = 0;
             loop {
                 let exe = std::env::current_exe().expect("exe");
+                let status_path = dir.join(format!("status-{wid}"));
+                let _ = std::fs::remove_file(&status_path);
                 let mut child = Command::new(exe)
                     .arg("worker")
                     .arg(id)
@@ -698,8 +702,6 @@ pub fn parent_main(check: &'static dyn Check, tier: Tier, seed: u64) -> i32 {
                     .expect("spawn worker");
                 let stdout = child.stdout.take().expect("stdout");
                 let pid = child.id();
-                let status_path = dir.join(format!("status-{wid}"));
-                let _ = std::fs::remove_file(&status_path);
                 // watchdog thread
                 let stop = Arc::new(AtomicBool::new(false));
                 let hung = Arc::new(AtomicBool::new(false));
@@ -952,6 +954,20 @@ pub fn parent_main(check: &'static dyn Check, tier: Tier, seed: u64) -> i32 {
     if !violations.is_empty() {
         let rdir = root.join("replays").join(id);
         let _ = std::fs::create_dir_all(&rdir);
+        {
+            let mut counts: BTreeMap<String, u64> = BTreeMap::new();
+            let mut log = String::new();
+            for f in &g.fails {
+                *counts.entry(f["sig"].as_str().unwrap_or("?").to_string()).or_insert(0) += 1;
+                log.push_str(&f.to_string());
+                log.push('\n');
+            }
+            let _ = std::fs::write(rdir.join("all_failures.jsonl"), log);
+            println!("failure signatures ({} distinct):", counts.len());
+            for (s, c) in &counts {
+                println!("  {c:>6}  {s}");
+            }
+        }
         for (sig, f) in violations.iter().take(20) {
             let path = if let Some(p) = f["replay_path"].as_str() {
                 root.join(p)
